@@ -45,6 +45,7 @@ type Contract struct {
 	FnFacts   []*Clause
 	Modifies  []*Clause
 	Lets      []*Clause
+	Asserts   []*Clause
 	Fresh     []string
 	Loops     map[int][]*Clause
 	Pure      bool
@@ -108,6 +109,15 @@ func parseContracts(path, pkgPath string, external bool) ([]*Contract, map[strin
 			return nil
 		}
 		src := txt
+		if cl.Kind == "assert_at" {
+			e, err := parser.ParseExpr(src)
+			if err != nil {
+				return fmt.Errorf("%s:%d: %v in %q", path, cl.Line, err, src)
+			}
+			cl.Expr = e
+			cur.Asserts = append(cur.Asserts, cl)
+			return nil
+		}
 		if cl.Kind == "let" {
 			i := strings.Index(txt, "=")
 			if i < 0 {
@@ -313,6 +323,19 @@ func parseContracts(path, pkgPath string, external bool) ([]*Contract, map[strin
 					}
 					cur.ReplayArgs[strings.TrimSpace(txt[:j])] = strings.TrimSpace(txt[j+1:])
 				}
+			case "assert_at":
+				// assert_at "source text" expr : expr must hold just before the
+				// first instruction of the line containing the text
+				txt := rest(k + 1)
+				if !strings.HasPrefix(txt, "\"") {
+					return nil, nil, fmt.Errorf("%s:%d: assert_at needs a quoted marker", path, i+1)
+				}
+				j := strings.Index(txt[1:], "\"")
+				if j < 0 {
+					return nil, nil, fmt.Errorf("%s:%d: assert_at: unterminated marker", path, i+1)
+				}
+				marker := txt[1 : 1+j]
+				last = &Clause{Kind: "assert_at", Name: marker, Text: strings.TrimSpace(txt[j+2:]), Canary: canary, File: path, Line: i + 1}
 			case "replay_import":
 				cur.ReplayImports = append(cur.ReplayImports, f[k+1:]...)
 			case "loop":
